@@ -58,6 +58,8 @@ type Contract struct {
 	Specialize map[string][]string
 	SpecConsts map[string][]int64 // named constants with a finite list of values (one verification each)
 	Decreases  *Clause            // termination measure for recursive calls
+	FieldMode  *Clause            // field-congruence mode: this modulus is read as 0, arithmetic over the rationals
+	Variant    string
 	Inherited string // contract inherited from this (identical) repository package
 	LoopAssert map[string][]Clause // ghost assertions at the end of a loop body (proved, then assumed)
 	LoopExitAssert map[string][]Clause // the same at `break` exits of the loop
@@ -220,7 +222,7 @@ func (u *Universe) loadDeps(dir string) error {
 
 var clauseWords = map[string]bool{"requires": true, "ensures": true, "modifies": true, "panics": true,
 	"loop": true, "repr": true, "inline": true, "props": true, "opaque": true, "unroll": true, "note": true, "induct": true, "cover": true,
-	"bv": true, "intvar": true, "theory": true, "returns": true, "decreases": true, "let": true, "use": true, "noframe": true, "specialize": true}
+	"bv": true, "intvar": true, "theory": true, "returns": true, "decreases": true, "fieldmode": true, "variant": true, "let": true, "use": true, "noframe": true, "specialize": true}
 
 func (u *Universe) parseContractFile(path, pkgPath string, deps bool) error {
 	data, err := os.ReadFile(path)
@@ -266,6 +268,9 @@ func (u *Universe) parseContractFile(path, pkgPath string, deps bool) error {
 				case "decreases":
 					cc := cl
 					curC.Decreases = &cc
+				case "fieldmode":
+					cc := cl
+					curC.FieldMode = &cc
 				case "use":
 					curC.Uses = append(curC.Uses, cl)
 				case "loopuse":
@@ -481,6 +486,19 @@ func (u *Universe) parseContractFile(path, pkgPath string, deps bool) error {
 			s := rest
 			pend = append(pend, pending{kind: "decreases", text: &s, line: where})
 			lastClause = pend[len(pend)-1].text
+		case "fieldmode":
+			s := rest
+			pend = append(pend, pending{kind: "fieldmode", text: &s, line: where})
+			lastClause = pend[len(pend)-1].text
+		case "variant":
+			// a second contract of the same function, verified separately and never used at call sites
+			old := pkgPath + "." + curC.Key
+			if u.Contracts[old] == curC {
+				delete(u.Contracts, old)
+			}
+			curC.Variant = rest
+			u.Contracts[old+"#"+rest] = curC
+			lastClause = nil
 		case "requires", "ensures", "modifies":
 			s := rest
 			pend = append(pend, pending{kind: word, text: &s, line: where})
